@@ -15,11 +15,21 @@ import (
 //   2. element-attached styles: a style-attribute declaration outranks every selector-based one
 //   3. specificity (presentational hints: author origin, specificity 0, placed before every
 //      other author rule)
-//   4. order of appearance: later wins; an imported sheet is substituted at its @import rule
+//   4. order of appearance: later wins; an imported sheet is substituted at its @import rule,
+//      every time it is imported (Cascade 4 §2: "as if [the imported rules] were written in the
+//      importing stylesheet, at the point of the @import"): a sheet imported twice contributes its
+//      rules twice, the later copy later in the order of appearance, whatever the spelling of the
+//      URL and independently of the media of the other import.  Only an @import naming a sheet
+//      that is being imported on the same path (a cycle; CSS leaves the processing of cycles to
+//      the implementation, every browser drops such an import) loads nothing.
 // ---------------------------------------------------------------------------------------------
 
 // maxImportDepth bounds the import chains the reference follows (the generator stays below 8).
 const maxImportDepth = 16
+
+// maxLiveImports bounds the @import rules the reference follows in one document (repeated imports
+// of sheets that themselves import repeatedly multiply; the generator stays far below).
+const maxLiveImports = 2000
 
 // Rank values of step 1.
 const (
@@ -61,6 +71,11 @@ type flatRule struct {
 	decls  []Decl
 	where  string // human description of the carrier
 	order  int
+	// dup: the rule instance was reached through an inclusion (link or @import) of a file the
+	// document had already included before; dupSib: through an @import naming a file that an
+	// earlier live @import of the same sheet names too.  Evidence only (which winners exist
+	// because a sheet contributes once more when it is imported again).
+	dup, dupSib bool
 }
 
 // Dead declarations: records that must never apply, with the reason.
@@ -85,6 +100,33 @@ type flattener struct {
 	// emptyKeepsImports models the defect F-C03-import-after-empty-rule (a style rule or @media
 	// with an empty block does not end the @import section); generator use only.
 	emptyKeepsImports bool
+
+	// import graph bookkeeping
+	chain       []string       // files on the current import path (a linked file first)
+	included    map[string]int // file -> live inclusions so far in the document
+	firstSp     map[string]int // file -> URL spelling of its first inclusion
+	dup, dupSib bool           // see flatRule
+	stats       importStats
+	overflow    bool // more than maxLiveImports @import rules to follow: flattening abandoned
+}
+
+// importStats: what the import graph of the document looked like (evidence).
+type importStats struct {
+	live              int // live @import rules followed
+	siblingRepeats    int // live @import naming a file an earlier live @import of the same sheet names
+	siblingRepeatsGap int // ... with at least one other live @import between the two
+	documentRepeats   int // live inclusion (link or @import) of a file included before, elsewhere or not
+	respelled         int // repeated inclusion spelled differently from the first inclusion of the file
+	cyclesCut         int // @import of a sheet that is on its own import path
+}
+
+func (f *flattener) onChain(file string) bool {
+	for _, c := range f.chain {
+		if c == file {
+			return true
+		}
+	}
+	return false
 }
 
 func mediaMatches(list []string, device string) bool {
@@ -114,9 +156,11 @@ func (f *flattener) killItems(items []Item, why string) {
 		case "media":
 			f.killItems(it.Items, why)
 		case "import":
-			if s := f.doc.Files[it.File]; s != nil && f.depth < maxImportDepth {
+			if s := f.doc.Files[it.File]; s != nil && f.depth < maxImportDepth && !f.onChain(it.File) {
 				f.depth++
+				f.chain = append(f.chain, it.File)
 				f.killItems(s.Items, why)
+				f.chain = f.chain[:len(f.chain)-1]
 				f.depth--
 			}
 		}
@@ -128,6 +172,8 @@ func (f *flattener) sheet(items []Item, origin, where string, hint, inMedia bool
 	// Cascade 4 §2: "Any @import rules must precede all other valid at-rules and style rules in a
 	// style sheet [...] or else the @import rule is invalid."  Inside @media it is always invalid.
 	importsAllowed := !inMedia
+	sibling := map[string]int{} // file -> position (among the live @imports of this sheet) of its last live @import
+	nLive := 0
 	for i, it := range items {
 		w := fmt.Sprintf("%s item %d", where, i)
 		switch it.Kind {
@@ -144,12 +190,35 @@ func (f *flattener) sheet(items []Item, origin, where string, hint, inMedia bool
 			if s == nil {
 				continue // missing file: nothing to apply
 			}
+			if f.onChain(it.File) {
+				f.stats.cyclesCut++ // the sheet is importing itself, directly or not
+				continue
+			}
+			if f.stats.live >= maxLiveImports {
+				f.overflow = true // the caller must not use the result
+				continue
+			}
+			f.stats.live++
+			dup, dupSib := f.dup, f.dupSib
+			if last, ok := sibling[it.File]; ok {
+				f.dupSib = true
+				f.stats.siblingRepeats++
+				if nLive-last > 1 {
+					f.stats.siblingRepeatsGap++
+				}
+			}
+			sibling[it.File] = nLive
+			nLive++
+			f.include(it.File, it.Sp)
 			f.depth++
 			if f.depth > maxImportDepth {
-				panic("c03 ref: import chain too deep (cycle?)")
+				panic("c03 ref: import chain too deep")
 			}
+			f.chain = append(f.chain, it.File)
 			f.sheet(s.Items, origin, w+" @import "+it.File, hint, false)
+			f.chain = f.chain[:len(f.chain)-1]
 			f.depth--
+			f.dup, f.dupSib = dup, dupSib
 		case "media":
 			if !(f.emptyKeepsImports && len(it.Items) == 0) {
 				importsAllowed = false
@@ -190,7 +259,7 @@ func (f *flattener) rule(it Item, ctx *nestCtx, origin, where string, hint bool)
 	}
 	own := func() {
 		f.rules = append(f.rules, flatRule{origin: origin, hint: hint, pe: it.PE, sel: sel, ctx: ctx, decls: decls,
-			where: where + " {" + selListText(it.Sel) + "}", order: len(f.rules)})
+			where: where + " {" + selListText(it.Sel) + "}", order: len(f.rules), dup: f.dup, dupSib: f.dupSib})
 	}
 	if !f.ownAfterNested {
 		own()
@@ -212,7 +281,7 @@ func (f *flattener) rule(it Item, ctx *nestCtx, origin, where string, hint bool)
 	}
 	if f.trailInPlace && len(it.Trail) > 0 {
 		f.rules = append(f.rules, flatRule{origin: origin, hint: hint, pe: it.PE, sel: sel, ctx: ctx, decls: it.Trail,
-			where: where + " {" + selListText(it.Sel) + "} trailing declarations", order: len(f.rules)})
+			where: where + " {" + selListText(it.Sel) + "} trailing declarations", order: len(f.rules), dup: f.dup, dupSib: f.dupSib})
 	}
 }
 
@@ -221,6 +290,25 @@ func flatten(doc *Doc, media string, hints, forms bool) *flattener {
 	f := &flattener{doc: doc, media: media, forms: forms}
 	f.all(hints)
 	return f
+}
+
+// include records one more live inclusion of a file of the document (from now on the rules
+// reached are "dup" when the file had been included before).
+func (f *flattener) include(file string, sp int) {
+	if f.included == nil {
+		f.included = map[string]int{}
+		f.firstSp = map[string]int{}
+	}
+	if f.included[file] > 0 {
+		f.dup = true
+		f.stats.documentRepeats++
+		if f.firstSp[file] != sp%3 {
+			f.stats.respelled++
+		}
+	} else {
+		f.firstSp[file] = sp % 3
+	}
+	f.included[file]++
 }
 
 func (f *flattener) all(hints bool) {
@@ -262,7 +350,12 @@ func (f *flattener) all(hints bool) {
 			f.killItems(s.Items, where+" has non-matching media attribute "+strings.Join(a.Media, ","))
 			continue
 		}
+		if a.Kind == "link" {
+			f.include(a.File, a.Sp)
+			f.chain = []string{a.File}
+		}
 		f.sheet(s.Items, "author", where, false, false)
+		f.chain, f.dup, f.dupSib = nil, false, false
 	}
 }
 
@@ -274,6 +367,8 @@ type cand struct {
 	spec  Spec
 	order int
 	where string
+	// reached only because a sheet contributes again when included again (see flatRule)
+	dup, dupSib bool
 }
 
 // beats reports whether a wins over b, and the cascade step that decides.
@@ -355,7 +450,7 @@ func (f *flattener) candidatesPE(e *Elem, pe, prop string, hints bool) []cand {
 		for k, d := range r.decls {
 			if sets(d) {
 				// order inside one block: later declaration later
-				out = append(out, cand{d: d, rank: rank(r.origin, d.Imp), spec: best, order: r.order*64 + k, where: r.where})
+				out = append(out, cand{d: d, rank: rank(r.origin, d.Imp), spec: best, order: r.order*64 + k, where: r.where, dup: r.dup, dupSib: r.dupSib})
 			}
 		}
 	}
